@@ -1,3 +1,567 @@
-import VncModel.Canvas
+import VncSpec.Encodings
+import VncProofs.C03
+/-!
+# C02 — Every supported encoding reproduces the server framebuffer exactly (part A: Raw, CopyRect, RRE, CoRRE,
+cursor, DesktopSize, QEMU-ext, LastRect; exact framing of whole updates)
+
+For every well-formed encoder decision the client model consumes exactly the bytes of the update and hands the
+application exactly the RFC's paint instructions, in order - for every rectangle size, every number of
+sub-rectangles, every pixel format size, whatever follows on the stream.
+-/
 namespace Vnc
+open Vnc.Spec
+
+/-! ## helper lemmas -/
+
+
+def okOut : Out → Bool
+  | .fill _ _ _ _ none => false
+  | _ => true
+
+theorem cut_none_of_ok (l : List Out) (h : ∀ o ∈ l, okOut o = true) : cutAtNoneFill l = none := by
+  induction l with
+  | nil => rfl
+  | cons a l ih =>
+    have h1 := h a (by simp)
+    have h2 := ih (fun o ho => h o (by simp [ho]))
+    cases a <;> simp_all [cutAtNoneFill]
+    case fill x y w h c => cases c <;> simp_all [cutAtNoneFill, okOut]
+
+theorem doConnection_pre (c : Core) (pre : List Out) :
+    doConnection c pre = ((doConnection c []).1, pre ++ (doConnection c []).2) := by
+  unfold doConnection
+  split
+  · simp [go]
+  · split <;> simp [go]
+
+theorem ok_doConnection (c : Core) : ∀ x ∈ (doConnection c []).2, okOut x = true := by
+  unfold doConnection
+  split
+  · simp [go]
+  · split <;> simp [go, okOut]
+
+theorem runs_core {s : RSt} {buf : Bytes} {out : List Out} {s' : RSt} {b' : Bytes}
+    (a rest : Bytes) (s1 : RSt) (o1 o : List Out)
+    (hb : buf = a ++ rest) (hh : halted s = false) (hl : a.length = need s) (hs : stepCore s a = (s1, o1))
+    (hok : ∀ x ∈ o1, okOut x = true) (ho : out = o1 ++ o) (hr : Runs rfbMachine s1 rest o s' b') :
+    Runs rfbMachine s buf out s' b' := by
+  refine Runs.step' a rest s1 o1 o hb hh hl ?_ ho hr
+  rw [rfb_step_eq, step_eq_core _ _ (by rw [hs]; exact cut_none_of_ok _ hok), hs]
+
+theorem runs_core_dc {s : RSt} {buf : Bytes} {out : List Out} {s' : RSt} {b' : Bytes}
+    (a rest : Bytes) (c1 : Core) (pre o : List Out)
+    (hb : buf = a ++ rest) (hh : halted s = false) (hl : a.length = need s)
+    (hs : stepCore s a = doConnection c1 pre)
+    (hok : ∀ x ∈ pre, okOut x = true) (ho : out = pre ++ (doConnection c1 []).2 ++ o)
+    (hr : Runs rfbMachine (doConnection c1 []).1 rest o s' b') :
+    Runs rfbMachine s buf out s' b' := by
+  refine runs_core a rest _ (pre ++ (doConnection c1 []).2) o hb hh hl (by rw [hs, doConnection_pre]) ?_ ho hr
+  intro x hx
+  rcases List.mem_append.1 hx with hx | hx
+  · exact hok x hx
+  · exact ok_doConnection c1 x hx
+
+
+
+theorem s32_lit : s32 (beNat (encS32 0)) = 0 ∧ s32 (beNat (encS32 1)) = 1 ∧ s32 (beNat (encS32 2)) = 2 ∧
+   s32 (beNat (encS32 4)) = 4 ∧ s32 (beNat (encS32 (-239))) = -239 ∧ s32 (beNat (encS32 (-223))) = -223 ∧
+   s32 (beNat (encS32 (-258))) = -258 ∧ s32 (beNat (encS32 (-224))) = -224 := by decide
+
+theorem header_fields (r : Rct) (hr : r.WF) (e : Int) :
+    beNat ((rectHeader r e).take 2) = r.x ∧ beNat (((rectHeader r e).drop 2).take 2) = r.y ∧
+    beNat (((rectHeader r e).drop 4).take 2) = r.w ∧ beNat (((rectHeader r e).drop 6).take 2) = r.h ∧
+    (rectHeader r e).drop 8 = encS32 e ∧ (rectHeader r e).length = 12 := by
+  obtain ⟨h1, h2, h3, h4⟩ := hr
+  have e1 := beNat_enc16 _ h1
+  have e2 := beNat_enc16 _ h2
+  have e3 := beNat_enc16 _ h3
+  have e4 := beNat_enc16 _ h4
+  refine ⟨e1, e2, e3, e4, rfl, rfl⟩
+
+/-- the rectangle-header handler, as a function of the decoded fields -/
+def rectDispatch (c : Core) (x y w h : Nat) (enc : Int) : RSt × List Out :=
+    let c := if enc == Tables.ENC_PSEUDO_LAST_RECT then { c with rectangles := 0 } else c
+    if c.rectangles ≠ 0 then
+      let c := { c with rectangles := c.rectangles - 1, rectPos := c.rectPos ++ [(x, y, w, h)] }
+      if enc == Tables.ENC_COPY_RECTANGLE then go c (.copyrect x y w h) []
+      else if enc == Tables.ENC_RAW then go c (.raw x y w h) []
+      else if enc == Tables.ENC_HEXTILE then nextHextile c none none x y w h none []
+      else if enc == Tables.ENC_CORRE then go c (.corre x y w h) []
+      else if enc == Tables.ENC_RRE then go c (.rre x y w h) []
+      else if enc == Tables.ENC_ZRLE then go c (.zrle x y w h) []
+      else if enc == Tables.ENC_PSEUDO_CURSOR then go c (.cursor x y w h) []
+      else if enc == Tables.ENC_PSEUDO_DESKTOP_SIZE then
+        doConnection { c with width := w, height := h } [.desktop w h]
+      else if enc == Tables.ENC_PSEUDO_QEMU_EXTENDED_KEY_EVENT then
+        doConnection { c with qemuNegotiated := true, rectPos := c.rectPos.dropLast } []
+      else dead c [.close]
+    else doConnection c []
+
+theorem stepCore_rectangle (c : Core) (r : Rct) (hr : r.WF) (e : Int) (he : s32 (beNat (encS32 e)) = e) :
+    stepCore ⟨c, .rectangle⟩ (rectHeader r e) = rectDispatch c r.x r.y r.w r.h e := by
+  obtain ⟨h1, h2, h3, h4, h5, _⟩ := header_fields r hr e
+  simp only [stepCore, h1, h2, h3, h4, h5, he, rectDispatch]
+
+
+
+theorem flatten_length_const (recs : List Bytes) (sz : Nat) (h : ∀ r ∈ recs, r.length = sz) :
+    recs.flatten.length = recs.length * sz := by
+  induction recs with
+  | nil => simp
+  | cons r recs ih =>
+    have h1 := h r (by simp)
+    have h2 := ih (fun x hx => h x (by simp [hx]))
+    simp only [List.flatten_cons, List.length_append, List.length_cons, h1, h2]
+    rw [Nat.add_mul]; omega
+
+theorem chunksOf_flatten (sz : Nat) (hsz : 0 < sz) : ∀ (recs : List Bytes) (fuel : Nat),
+    (∀ r ∈ recs, r.length = sz) → recs.length ≤ fuel → chunksOf sz fuel recs.flatten = recs := by
+  intro recs
+  induction recs with
+  | nil => intro fuel _ _; cases fuel <;> simp [chunksOf]
+  | cons r recs ih =>
+    intro fuel h hf
+    have h1 := h r (by simp)
+    cases fuel with
+    | zero => simp at hf
+    | succ f =>
+      have hne : r ≠ [] := by intro h0; rw [h0] at h1; simp at h1; omega
+      simp only [chunksOf, List.flatten_cons, List.isEmpty_iff, List.append_eq_nil_iff, hne, false_and,
+        if_false]
+      rw [List.take_left' h1, List.drop_left' h1, ih f (fun x hx => h x (by simp [hx])) (by simpa using hf)]
+
+theorem chunksOf_flatten_self (sz : Nat) (hsz : 0 < sz) (recs : List Bytes) (h : ∀ r ∈ recs, r.length = sz) :
+    chunksOf sz recs.flatten.length recs.flatten = recs := by
+  apply chunksOf_flatten sz hsz recs _ h
+  rw [flatten_length_const recs sz h]
+  exact Nat.le_mul_of_pos_right _ hsz
+
+theorem rreFills_subs (bypp x y : Nat) (subs : List Sub)
+    (h : ∀ s ∈ subs, s.col.length = bypp ∧ s.x < 65536 ∧ s.y < 65536 ∧ s.w < 65536 ∧ s.h < 65536) :
+    rreFills bypp x y (subs.flatMap Sub.wire16) =
+      subs.map fun s => .fill ((x + s.x : Nat) : Int) ((y + s.y : Nat) : Int) s.w s.h (some s.col) := by
+  unfold rreFills
+  rw [List.flatMap_def, chunksOf_flatten_self (bypp + 8) (by omega)]
+  · rw [List.map_map]
+    apply List.map_congr_left
+    intro s hs
+    obtain ⟨hc, hx, hy, hw, hh⟩ := h s hs
+    have hw16 : Sub.wire16 s = s.col ++ (enc16 s.x ++ enc16 s.y ++ enc16 s.w ++ enc16 s.h) := by
+      simp [Sub.wire16, List.append_assoc]
+    simp only [Function.comp, hw16, List.take_left' hc, List.drop_left' hc]
+    have e1 : beNat ((enc16 s.x ++ enc16 s.y ++ enc16 s.w ++ enc16 s.h).take 2) = s.x := beNat_enc16 _ hx
+    have e2 : beNat (((enc16 s.x ++ enc16 s.y ++ enc16 s.w ++ enc16 s.h).drop 2).take 2) = s.y := beNat_enc16 _ hy
+    have e3 : beNat (((enc16 s.x ++ enc16 s.y ++ enc16 s.w ++ enc16 s.h).drop 4).take 2) = s.w := beNat_enc16 _ hw
+    have e4 : beNat (((enc16 s.x ++ enc16 s.y ++ enc16 s.w ++ enc16 s.h).drop 6).take 2) = s.h := beNat_enc16 _ hh
+    rw [e1, e2, e3, e4]
+    simp
+  · intro r hr
+    obtain ⟨s, hs, rfl⟩ := List.mem_map.1 hr
+    have := (h s hs).1
+    simp [Sub.wire16, enc16_length, this]
+
+theorem correFills_subs (bypp x y : Nat) (subs : List Sub)
+    (h : ∀ s ∈ subs, s.col.length = bypp ∧ s.x < 256 ∧ s.y < 256 ∧ s.w < 256 ∧ s.h < 256) :
+    correFills bypp x y (subs.flatMap Sub.wire8) =
+      subs.map fun s => .fill ((x + s.x : Nat) : Int) ((y + s.y : Nat) : Int) s.w s.h (some s.col) := by
+  unfold correFills
+  rw [List.flatMap_def, chunksOf_flatten_self (bypp + 4) (by omega)]
+  · rw [List.map_map]
+    apply List.map_congr_left
+    intro s hs
+    obtain ⟨hc, hx, hy, hw, hh⟩ := h s hs
+    simp only [Function.comp, Sub.wire8, List.take_left' hc, List.drop_left' hc]
+    simp [byteOf_toNat, Nat.mod_eq_of_lt, hx, hy, hw, hh]
+  · intro r hr
+    obtain ⟨s, hs, rfl⟩ := List.mem_map.1 hr
+    have := (h s hs).1
+    simp [Sub.wire8, this]
+
+/-- the protocol object after a rectangle has been handled -/
+def coreAfterRect (c : Core) (r : Rct) : Body → Core
+  | .desktopSize => { c with rectangles := c.rectangles - 1, rectPos := c.rectPos ++ [(r.x, r.y, r.w, r.h)],
+                              width := r.w, height := r.h }
+  | .qemuExtKey => { c with rectangles := c.rectangles - 1, qemuNegotiated := true,
+                            rectPos := (c.rectPos ++ [(r.x, r.y, r.w, r.h)]).dropLast }
+  | _ => { c with rectangles := c.rectangles - 1, rectPos := c.rectPos ++ [(r.x, r.y, r.w, r.h)] }
+
+def coreAfterRects (c : Core) : List (Rct × Body) → Core
+  | [] => c
+  | rb :: rest => coreAfterRects (coreAfterRect c rb.1 rb.2) rest
+
+/-- the core after the header of an ordinary rectangle -/
+def coreHdr (c : Core) (r : Rct) : Core :=
+  { c with rectangles := c.rectangles - 1, rectPos := c.rectPos ++ [(r.x, r.y, r.w, r.h)] }
+
+theorem hdr_raw (c : Core) (r : Rct) (hr : r.WF) (hk : c.rectangles ≠ 0) :
+    stepCore ⟨c, .rectangle⟩ (rectHeader r 0) = (⟨coreHdr c r, .raw r.x r.y r.w r.h⟩, []) := by
+  rw [stepCore_rectangle c r hr 0 s32_lit.1]
+  simp [rectDispatch, hk, go, coreHdr, Tables.ENC_RAW, Tables.ENC_COPY_RECTANGLE, Tables.ENC_PSEUDO_LAST_RECT]
+
+theorem hdr_copy (c : Core) (r : Rct) (hr : r.WF) (hk : c.rectangles ≠ 0) :
+    stepCore ⟨c, .rectangle⟩ (rectHeader r 1) = (⟨coreHdr c r, .copyrect r.x r.y r.w r.h⟩, []) := by
+  rw [stepCore_rectangle c r hr 1 s32_lit.2.1]
+  simp [rectDispatch, hk, go, coreHdr, Tables.ENC_COPY_RECTANGLE, Tables.ENC_PSEUDO_LAST_RECT]
+
+theorem hdr_rre (c : Core) (r : Rct) (hr : r.WF) (hk : c.rectangles ≠ 0) :
+    stepCore ⟨c, .rectangle⟩ (rectHeader r 2) = (⟨coreHdr c r, .rre r.x r.y r.w r.h⟩, []) := by
+  rw [stepCore_rectangle c r hr 2 s32_lit.2.2.1]
+  simp [rectDispatch, hk, go, coreHdr, Tables.ENC_RAW, Tables.ENC_COPY_RECTANGLE, Tables.ENC_PSEUDO_LAST_RECT,
+    Tables.ENC_HEXTILE, Tables.ENC_CORRE, Tables.ENC_RRE]
+
+theorem hdr_corre (c : Core) (r : Rct) (hr : r.WF) (hk : c.rectangles ≠ 0) :
+    stepCore ⟨c, .rectangle⟩ (rectHeader r 4) = (⟨coreHdr c r, .corre r.x r.y r.w r.h⟩, []) := by
+  rw [stepCore_rectangle c r hr 4 s32_lit.2.2.2.1]
+  simp [rectDispatch, hk, go, coreHdr, Tables.ENC_RAW, Tables.ENC_COPY_RECTANGLE, Tables.ENC_PSEUDO_LAST_RECT,
+    Tables.ENC_HEXTILE, Tables.ENC_CORRE]
+
+theorem hdr_cursor (c : Core) (r : Rct) (hr : r.WF) (hk : c.rectangles ≠ 0) :
+    stepCore ⟨c, .rectangle⟩ (rectHeader r (-239)) = (⟨coreHdr c r, .cursor r.x r.y r.w r.h⟩, []) := by
+  rw [stepCore_rectangle c r hr (-239) s32_lit.2.2.2.2.1]
+  simp [rectDispatch, hk, go, coreHdr, Tables.ENC_RAW, Tables.ENC_COPY_RECTANGLE, Tables.ENC_PSEUDO_LAST_RECT,
+    Tables.ENC_HEXTILE, Tables.ENC_CORRE, Tables.ENC_RRE, Tables.ENC_ZRLE, Tables.ENC_PSEUDO_CURSOR]
+
+theorem hdr_desktop (c : Core) (r : Rct) (hr : r.WF) (hk : c.rectangles ≠ 0) :
+    stepCore ⟨c, .rectangle⟩ (rectHeader r (-223)) =
+      doConnection (coreAfterRect c r .desktopSize) [.desktop r.w r.h] := by
+  rw [stepCore_rectangle c r hr (-223) s32_lit.2.2.2.2.2.1]
+  simp [rectDispatch, hk, coreAfterRect, Tables.ENC_RAW, Tables.ENC_COPY_RECTANGLE, Tables.ENC_PSEUDO_LAST_RECT,
+    Tables.ENC_HEXTILE, Tables.ENC_CORRE, Tables.ENC_RRE, Tables.ENC_ZRLE, Tables.ENC_PSEUDO_CURSOR,
+    Tables.ENC_PSEUDO_DESKTOP_SIZE]
+
+theorem hdr_qemu (c : Core) (r : Rct) (hr : r.WF) (hk : c.rectangles ≠ 0) :
+    stepCore ⟨c, .rectangle⟩ (rectHeader r (-258)) = doConnection (coreAfterRect c r .qemuExtKey) [] := by
+  rw [stepCore_rectangle c r hr (-258) s32_lit.2.2.2.2.2.2.1]
+  simp [rectDispatch, hk, coreAfterRect, Tables.ENC_RAW, Tables.ENC_COPY_RECTANGLE, Tables.ENC_PSEUDO_LAST_RECT,
+    Tables.ENC_HEXTILE, Tables.ENC_CORRE, Tables.ENC_RRE, Tables.ENC_ZRLE, Tables.ENC_PSEUDO_CURSOR,
+    Tables.ENC_PSEUDO_DESKTOP_SIZE, Tables.ENC_PSEUDO_QEMU_EXTENDED_KEY_EVENT]
+
+theorem hdr_last (c : Core) :
+    stepCore ⟨c, .rectangle⟩ (rectHeader ⟨0, 0, 0, 0⟩ (-224)) = doConnection { c with rectangles := 0 } [] := by
+  rw [stepCore_rectangle c ⟨0, 0, 0, 0⟩ (by simp [Rct.WF]) (-224) s32_lit.2.2.2.2.2.2.2]
+  simp [rectDispatch, Tables.ENC_PSEUDO_LAST_RECT]
+
+theorem car_raw (c : Core) (r : Rct) (px : Bytes) : coreAfterRect c r (.raw px) = coreHdr c r := rfl
+theorem car_copy (c : Core) (r : Rct) (sx sy : Nat) : coreAfterRect c r (.copyRect sx sy) = coreHdr c r := rfl
+theorem car_rre (c : Core) (r : Rct) (bg : Bytes) (subs : List Sub) : coreAfterRect c r (.rre bg subs) = coreHdr c r := rfl
+theorem car_corre (c : Core) (r : Rct) (bg : Bytes) (subs : List Sub) :
+    coreAfterRect c r (.corre bg subs) = coreHdr c r := rfl
+theorem car_cursor (c : Core) (r : Rct) (px mask : Bytes) : coreAfterRect c r (.cursor px mask) = coreHdr c r := rfl
+
+theorem ok_map_fill {α : Type} (l : List α) (fx fy fw fh : α → Int) (fc : α → Bytes) :
+    ∀ x ∈ l.map (fun s => Out.fill (fx s) (fy s) (fw s) (fh s) (some (fc s))), okOut x = true := by
+  intro x hx
+  obtain ⟨s, _, rfl⟩ := List.mem_map.1 hx
+  rfl
+
+theorem flatMap_wire16_length (bypp : Nat) (subs : List Sub) (h : ∀ s ∈ subs, s.col.length = bypp) :
+    (subs.flatMap Sub.wire16).length = (8 + bypp) * subs.length := by
+  rw [List.flatMap_def, flatten_length_const _ (bypp + 8)]
+  · simp [Nat.mul_comm, Nat.add_comm]
+  · intro r hr
+    obtain ⟨s, hs, rfl⟩ := List.mem_map.1 hr
+    simp [Sub.wire16, enc16_length, h s hs]
+
+theorem flatMap_wire8_length (bypp : Nat) (subs : List Sub) (h : ∀ s ∈ subs, s.col.length = bypp) :
+    (subs.flatMap Sub.wire8).length = (4 + bypp) * subs.length := by
+  rw [List.flatMap_def, flatten_length_const _ (bypp + 4)]
+  · simp [Nat.mul_comm, Nat.add_comm]
+  · intro r hr
+    obtain ⟨s, hs, rfl⟩ := List.mem_map.1 hr
+    simp [Sub.wire8, h s hs]
+
+theorem step_rre (c : Core) (x y w h n : Nat) (bg : Bytes) (hn : n < 4294967296) :
+    stepCore ⟨c, .rre x y w h⟩ (enc32 n ++ bg) =
+      if n ≠ 0 then go c (.rreSubs n x y) [.fill x y w h (some bg)] else doConnection c [.fill x y w h (some bg)] := by
+  have hb4 : (enc32 n ++ bg).take 4 = enc32 n := List.take_left' rfl
+  have hd4 : (enc32 n ++ bg).drop 4 = bg := List.drop_left' rfl
+  simp only [stepCore, hb4, hd4, beNat_enc32 _ hn]
+
+theorem step_corre (c : Core) (x y w h n : Nat) (bg : Bytes) (hn : n < 4294967296) :
+    stepCore ⟨c, .corre x y w h⟩ (enc32 n ++ bg) =
+      if n ≠ 0 then go c (.correSubs n x y) [.fill x y w h (some bg)] else doConnection c [.fill x y w h (some bg)] := by
+  have hb4 : (enc32 n ++ bg).take 4 = enc32 n := List.take_left' rfl
+  have hd4 : (enc32 n ++ bg).drop 4 = bg := List.drop_left' rfl
+  simp only [stepCore, hb4, hd4, beNat_enc32 _ hn]
+
+/-- **one rectangle**: from the state that expects a rectangle header, the header and body are consumed exactly,
+    the RFC's paint instructions are emitted, and the machine continues (next rectangle, or commit and next message)
+    with whatever follows -/
+theorem C02_rect (c : Core) (r : Rct) (body : Body) (hr : r.WF) (hwf : body.WF c.pf.bypp r) (hk : c.rectangles ≠ 0)
+    (rest : Bytes) (o : List Out) (s' : RSt) (b' : Bytes)
+    (hcont : Runs rfbMachine (doConnection (coreAfterRect c r body) []).1 rest o s' b') :
+    Runs rfbMachine ⟨c, .rectangle⟩ (rectHeader r body.enc ++ body.wire ++ rest)
+      (body.paint r ++ (doConnection (coreAfterRect c r body) []).2 ++ o) s' b' := by
+  cases body with
+  | raw px =>
+    rw [car_raw] at hcont ⊢
+    refine runs_core (rectHeader r 0) (px ++ rest) _ [] _ (by simp [Body.enc, Body.wire]) rfl rfl
+      (hdr_raw c r hr hk) (by simp) rfl ?_
+    refine runs_core_dc px rest (coreHdr c r) [.update r.x r.y r.w r.h px] o rfl rfl ?_ rfl (by simp [okOut]) rfl hcont
+    exact hwf
+  | copyRect sx sy =>
+    rw [car_copy] at hcont ⊢
+    obtain ⟨h1, h2⟩ := hwf
+    refine runs_core (rectHeader r 1) (enc16 sx ++ enc16 sy ++ rest) _ [] _ (by simp [Body.enc, Body.wire]) rfl rfl
+      (hdr_copy c r hr hk) (by simp) rfl ?_
+    refine runs_core_dc (enc16 sx ++ enc16 sy) rest (coreHdr c r) [.copy sx sy r.x r.y r.w r.h] o rfl rfl rfl ?_
+      (by simp [okOut]) rfl hcont
+    have e1 : beNat ((enc16 sx ++ enc16 sy).take 2) = sx := beNat_enc16 _ h1
+    have e2 : beNat ((enc16 sx ++ enc16 sy).drop 2) = sy := beNat_enc16 _ h2
+    simp only [stepCore, e1, e2]
+  | rre bg subs =>
+    rw [car_rre] at hcont ⊢
+    obtain ⟨hbg, hn, hsub⟩ := hwf
+    refine runs_core (rectHeader r 2) (enc32 subs.length ++ bg ++ (subs.flatMap Sub.wire16 ++ rest)) _ [] _
+      (by simp [Body.enc, Body.wire]) rfl rfl (hdr_rre c r hr hk) (by simp) rfl ?_
+    have hl1 : (enc32 subs.length ++ bg).length = need ⟨coreHdr c r, .rre r.x r.y r.w r.h⟩ := by
+      simp [need, hbg, enc32_length, coreHdr]
+    by_cases hz : subs.length = 0
+    · have hs0 : subs = [] := List.eq_nil_of_length_eq_zero hz
+      refine runs_core_dc (enc32 subs.length ++ bg) _ (coreHdr c r) [.fill r.x r.y r.w r.h (some bg)] o rfl rfl hl1 ?_
+        (by simp [okOut]) (by simp [hs0]) (by simpa [hs0] using hcont)
+      rw [step_rre _ _ _ _ _ _ _ hn]
+      simp [hz]
+    · refine runs_core (enc32 subs.length ++ bg) _ ⟨coreHdr c r, .rreSubs subs.length r.x r.y⟩
+        [.fill r.x r.y r.w r.h (some bg)] _ rfl rfl hl1 ?_ (by simp [okOut]) rfl ?_
+      · rw [step_rre _ _ _ _ _ _ _ hn]
+        simp [hz, go]
+      · refine runs_core_dc (subs.flatMap Sub.wire16) rest (coreHdr c r)
+          (subs.map fun s => .fill ((r.x + s.x : Nat) : Int) ((r.y + s.y : Nat) : Int) s.w s.h (some s.col))
+          o rfl rfl ?_ ?_ ?_ ?_ hcont
+        · rw [flatMap_wire16_length _ _ (fun s hs => (hsub s hs).1)]
+          simp [need, coreHdr]
+        · have : stepCore ⟨coreHdr c r, .rreSubs subs.length r.x r.y⟩ (subs.flatMap Sub.wire16) =
+            doConnection (coreHdr c r) (rreFills c.pf.bypp r.x r.y (subs.flatMap Sub.wire16)) := rfl
+          rw [this, rreFills_subs _ _ _ _ hsub]
+        · exact ok_map_fill subs _ _ _ _ _
+        · simp
+  | corre bg subs =>
+    rw [car_corre] at hcont ⊢
+    obtain ⟨hbg, hn, hsub⟩ := hwf
+    refine runs_core (rectHeader r 4) (enc32 subs.length ++ bg ++ (subs.flatMap Sub.wire8 ++ rest)) _ [] _
+      (by simp [Body.enc, Body.wire]) rfl rfl (hdr_corre c r hr hk) (by simp) rfl ?_
+    have hl1 : (enc32 subs.length ++ bg).length = need ⟨coreHdr c r, .corre r.x r.y r.w r.h⟩ := by
+      simp [need, hbg, enc32_length, coreHdr]
+    by_cases hz : subs.length = 0
+    · have hs0 : subs = [] := List.eq_nil_of_length_eq_zero hz
+      refine runs_core_dc (enc32 subs.length ++ bg) _ (coreHdr c r) [.fill r.x r.y r.w r.h (some bg)] o rfl rfl hl1 ?_
+        (by simp [okOut]) (by simp [hs0]) (by simpa [hs0] using hcont)
+      rw [step_corre _ _ _ _ _ _ _ hn]
+      simp [hz]
+    · refine runs_core (enc32 subs.length ++ bg) _ ⟨coreHdr c r, .correSubs subs.length r.x r.y⟩
+        [.fill r.x r.y r.w r.h (some bg)] _ rfl rfl hl1 ?_ (by simp [okOut]) rfl ?_
+      · rw [step_corre _ _ _ _ _ _ _ hn]
+        simp [hz, go]
+      · refine runs_core_dc (subs.flatMap Sub.wire8) rest (coreHdr c r)
+          (subs.map fun s => .fill ((r.x + s.x : Nat) : Int) ((r.y + s.y : Nat) : Int) s.w s.h (some s.col))
+          o rfl rfl ?_ ?_ ?_ ?_ hcont
+        · rw [flatMap_wire8_length _ _ (fun s hs => (hsub s hs).1)]
+          simp [need, coreHdr]
+        · have : stepCore ⟨coreHdr c r, .correSubs subs.length r.x r.y⟩ (subs.flatMap Sub.wire8) =
+            doConnection (coreHdr c r) (correFills c.pf.bypp r.x r.y (subs.flatMap Sub.wire8)) := rfl
+          rw [this, correFills_subs _ _ _ _ hsub]
+        · exact ok_map_fill subs _ _ _ _ _
+        · simp
+  | cursor px mask =>
+    rw [car_cursor] at hcont ⊢
+    obtain ⟨h1, h2⟩ := hwf
+    refine runs_core (rectHeader r (-239)) (px ++ mask ++ rest) _ [] _ (by simp [Body.enc, Body.wire]) rfl rfl
+      (hdr_cursor c r hr hk) (by simp) rfl ?_
+    refine runs_core_dc (px ++ mask) rest (coreHdr c r) [.cursor r.x r.y r.w r.h px mask] o rfl rfl ?_ ?_
+      (by simp [okOut]) rfl hcont
+    · simp [need, h1, h2, coreHdr]
+    · have e1 : (px ++ mask).take (r.w * r.h * c.pf.bypp) = px := List.take_left' h1
+      have e2 : (px ++ mask).drop (r.w * r.h * c.pf.bypp) = mask := List.drop_left' h1
+      have : stepCore ⟨coreHdr c r, .cursor r.x r.y r.w r.h⟩ (px ++ mask) =
+          doConnection (coreHdr c r) [.cursor r.x r.y r.w r.h ((px ++ mask).take (r.w * r.h * c.pf.bypp))
+            ((px ++ mask).drop (r.w * r.h * c.pf.bypp))] := rfl
+      rw [this, e1, e2]
+  | desktopSize =>
+    refine runs_core_dc (rectHeader r (-223)) rest _ [.desktop r.w r.h] o (by simp [Body.enc, Body.wire]) rfl rfl
+      (hdr_desktop c r hr hk) (by simp [okOut]) rfl hcont
+  | qemuExtKey =>
+    refine runs_core_dc (rectHeader r (-258)) rest _ [] o (by simp [Body.enc, Body.wire]) rfl rfl
+      (hdr_qemu c r hr hk) (by simp) rfl hcont
+
+/-- the LastRect marker ends the update whatever the announced count was -/
+theorem C02_lastrect (c : Core) (rest : Bytes) (o : List Out) (s' : RSt) (b' : Bytes)
+    (hcont : Runs rfbMachine (doConnection { c with rectangles := 0 } []).1 rest o s' b') :
+    Runs rfbMachine ⟨c, .rectangle⟩ (rectHeader ⟨0, 0, 0, 0⟩ (-224) ++ rest)
+      ((doConnection { c with rectangles := 0 } []).2 ++ o) s' b' := by
+  exact runs_core_dc (rectHeader ⟨0, 0, 0, 0⟩ (-224)) rest _ [] o rfl rfl rfl (hdr_last c) (by simp) rfl hcont
+
+/-! ### whole updates -/
+
+theorem coreAfterRect_pf (c : Core) (r : Rct) (b : Body) : (coreAfterRect c r b).pf = c.pf := by
+  cases b <;> rfl
+
+theorem coreAfterRect_rectangles (c : Core) (r : Rct) (b : Body) :
+    (coreAfterRect c r b).rectangles = c.rectangles - 1 := by
+  cases b <;> rfl
+
+theorem coreAfterRect_rectPos (c : Core) (r : Rct) (b : Body) :
+    (coreAfterRect c r b).rectPos = c.rectPos ++ (if b.positional then [(r.x, r.y, r.w, r.h)] else []) := by
+  cases b <;> simp [coreAfterRect, Body.positional]
+
+theorem coreAfterRects_rectangles (rects : List (Rct × Body)) : ∀ c : Core,
+    (coreAfterRects c rects).rectangles = c.rectangles - rects.length := by
+  induction rects with
+  | nil => intro c; rfl
+  | cons rb rects ih =>
+    intro c
+    simp only [coreAfterRects, ih, coreAfterRect_rectangles, List.length_cons]
+    omega
+
+theorem coreAfterRects_rectPos (rects : List (Rct × Body)) : ∀ c : Core,
+    (coreAfterRects c rects).rectPos = c.rectPos ++ updatedAreas rects := by
+  induction rects with
+  | nil => intro c; simp [coreAfterRects, updatedAreas]
+  | cons rb rects ih =>
+    intro c
+    simp only [coreAfterRects, ih, coreAfterRect_rectPos]
+    cases hp : rb.2.positional <;> simp [updatedAreas, hp]
+
+/-- what the decoder emits for a sequence of rectangles (with the `_doConnection` outputs in between) -/
+def outRects (c : Core) : List (Rct × Body) → List Out
+  | [] => []
+  | rb :: rest => rb.2.paint rb.1 ++ (doConnection (coreAfterRect c rb.1 rb.2) []).2 ++
+      outRects (coreAfterRect c rb.1 rb.2) rest
+
+theorem doConnection_rect (c : Core) (hk : c.rectangles ≠ 0) : doConnection c [] = (⟨c, .rectangle⟩, []) := by
+  simp [doConnection, hk, go]
+
+theorem doConnection_conn (c : Core) (hk : c.rectangles = 0) :
+    doConnection c [] = (⟨c, .connection⟩, if c.rectPos = [] then [] else [.commit c.rectPos]) := by
+  by_cases h : c.rectPos = [] <;> simp [doConnection, hk, go, h]
+
+theorem runs_rects (rects : List (Rct × Body)) : ∀ (c : Core), rects.length ≤ c.rectangles →
+    (∀ rb ∈ rects, rb.1.WF ∧ rb.2.WF c.pf.bypp rb.1) → ∀ (rest : Bytes) (o : List Out) (s' : RSt) (b' : Bytes),
+    Runs rfbMachine (doConnection (coreAfterRects c rects) []).1 rest o s' b' →
+    Runs rfbMachine (doConnection c []).1 ((rects.flatMap fun rb => rectHeader rb.1 rb.2.enc ++ rb.2.wire) ++ rest)
+      (outRects c rects ++ o) s' b' := by
+  induction rects with
+  | nil => intro c _ _ rest o s' b' h; simpa [outRects, coreAfterRects] using h
+  | cons rb rects ih =>
+    intro c hlen hwf rest o s' b' h
+    have hk : c.rectangles ≠ 0 := by simp only [List.length_cons] at hlen; omega
+    have h1 := hwf rb (by simp)
+    rw [doConnection_rect c hk, List.flatMap_cons, List.append_assoc]
+    have := C02_rect c rb.1 rb.2 h1.1 h1.2 hk _ _ s' b'
+      (ih (coreAfterRect c rb.1 rb.2) (by rw [coreAfterRect_rectangles]; simp only [List.length_cons] at hlen; omega)
+        (fun x hx => by rw [coreAfterRect_pf]; exact hwf x (by simp [hx])) rest o s' b' h)
+    simpa only [outRects, List.append_assoc] using this
+
+theorem outRects_eq (rects : List (Rct × Body)) : ∀ (c : Core), rects.length ≤ c.rectangles →
+    (doConnection c []).2 ++ outRects c rects =
+      rects.flatMap (fun rb => rb.2.paint rb.1) ++ (doConnection (coreAfterRects c rects) []).2 := by
+  induction rects with
+  | nil => intro c _; simp [outRects, coreAfterRects]
+  | cons rb rects ih =>
+    intro c hlen
+    have hk : c.rectangles ≠ 0 := by simp only [List.length_cons] at hlen; omega
+    have := ih (coreAfterRect c rb.1 rb.2)
+      (by rw [coreAfterRect_rectangles]; simp only [List.length_cons] at hlen; omega)
+    rw [doConnection_rect c hk]
+    simp only [outRects, List.nil_append, List.flatMap_cons, List.append_assoc, coreAfterRects, this]
+
+theorem step_fbUpdate (c : Core) (n : Nat) (hn : n < 65536) :
+    stepCore ⟨c, .fbUpdate⟩ (0 :: enc16 n) = doConnection { c with rectangles := n, rectPos := [] } [.begin] := by
+  have : beNat ((0 :: enc16 n).drop 1) = n := beNat_enc16 n hn
+  simp only [stepCore, this]
+
+/-- start of an update: the message type, padding and count are consumed, `begin` is emitted -/
+theorem runs_update_start (c : Core) (n : Nat) (hn : n < 65536) (rest : Bytes) (o : List Out) (s' : RSt) (b' : Bytes)
+    (h : Runs rfbMachine (doConnection { c with rectangles := n, rectPos := [] } []).1 rest o s' b') :
+    Runs rfbMachine ⟨c, .connection⟩ ([0, 0] ++ enc16 n ++ rest)
+      ([.begin] ++ (doConnection { c with rectangles := n, rectPos := [] } []).2 ++ o) s' b' := by
+  refine runs_core [0] (0 :: enc16 n ++ rest) ⟨c, .fbUpdate⟩ [] _ rfl rfl rfl ?_ (by simp) rfl ?_
+  · simp [stepCore, go, Tables.S2C_FRAMEBUFFER_UPDATE]
+  · exact runs_core_dc (0 :: enc16 n) rest _ [.begin] o rfl rfl rfl (step_fbUpdate c n hn) (by simp [okOut]) rfl h
+
+theorem struct_rect0 (c : Core) (h : c.rectangles = 0) : { c with rectangles := 0 } = c := by
+  cases c; simp_all
+
+/-- **a whole FramebufferUpdate with an exact count**: consumed exactly; the application sees begin, every
+    rectangle's paint instructions in order, commit with the updated areas; then the next message is read -/
+theorem C02_update (c : Core) (rects : List (Rct × Body)) (hn : rects.length < 65536)
+    (hwf : ∀ rb ∈ rects, rb.1.WF ∧ rb.2.WF c.pf.bypp rb.1)
+    (rest : Bytes) (o : List Out) (s' : RSt) (b' : Bytes)
+    (hcont : Runs rfbMachine ⟨{ coreAfterRects { c with rectangles := rects.length, rectPos := [] } rects with rectangles := 0 },
+                               .connection⟩ rest o s' b') :
+    Runs rfbMachine ⟨c, .connection⟩ (wireUpdate rects ++ rest) (paintUpdate rects ++ o) s' b' := by
+  let c0 : Core := { c with rectangles := rects.length, rectPos := [] }
+  have hz : (coreAfterRects c0 rects).rectangles = 0 := by
+    rw [coreAfterRects_rectangles]; simp [c0]
+  have hpos : (coreAfterRects c0 rects).rectPos = updatedAreas rects := by
+    rw [coreAfterRects_rectPos]; simp [c0]
+  have hdc := doConnection_conn _ hz
+  rw [hpos] at hdc
+  have hcont' : Runs rfbMachine (doConnection (coreAfterRects c0 rects) []).1 rest o s' b' := by
+    rw [hdc]; rw [struct_rect0 _ hz] at hcont; exact hcont
+  have h1 := runs_rects rects c0 (Nat.le_refl _) hwf rest o s' b' hcont'
+  have h2 := runs_update_start c rects.length hn _ _ s' b' h1
+  have h3 := outRects_eq rects c0 (Nat.le_refl _)
+  rw [hdc] at h3
+  have hout : [Out.begin] ++ (doConnection c0 []).2 ++ (outRects c0 rects ++ o) = paintUpdate rects ++ o := by
+    rw [List.append_assoc, ← List.append_assoc (doConnection c0 []).2, h3]
+    simp [paintUpdate]
+  rw [hout] at h2
+  simpa [wireUpdate, List.append_assoc] using h2
+
+/-- the same with a LastRect marker -/
+theorem C02_update_lastrect (c : Core) (count : Nat) (rects : List (Rct × Body)) (hc : rects.length < count)
+    (hn : count < 65536) (hwf : ∀ rb ∈ rects, rb.1.WF ∧ rb.2.WF c.pf.bypp rb.1)
+    (rest : Bytes) (o : List Out) (s' : RSt) (b' : Bytes)
+    (hcont : Runs rfbMachine ⟨{ coreAfterRects { c with rectangles := count, rectPos := [] } rects with rectangles := 0 },
+                               .connection⟩ rest o s' b') :
+    Runs rfbMachine ⟨c, .connection⟩ (wireUpdateLast count rects ++ rest) (paintUpdate rects ++ o) s' b' := by
+  let c0 : Core := { c with rectangles := count, rectPos := [] }
+  let cE : Core := { coreAfterRects c0 rects with rectangles := 0 }
+  have hnz : (coreAfterRects c0 rects).rectangles ≠ 0 := by
+    rw [coreAfterRects_rectangles]; simp [c0]; omega
+  have hpos : cE.rectPos = updatedAreas rects := by
+    show (coreAfterRects c0 rects).rectPos = _
+    rw [coreAfterRects_rectPos]; simp [c0]
+  have hdcE := doConnection_conn cE rfl
+  rw [hpos] at hdcE
+  have hlast := C02_lastrect (coreAfterRects c0 rects) rest o s' b' (by rw [hdcE]; exact hcont)
+  have hdc := doConnection_rect _ hnz
+  have h1 := runs_rects rects c0 (by simp [c0]; omega) hwf _ _ s' b' (by rw [hdc]; exact hlast)
+  have h2 := runs_update_start c count hn _ _ s' b' h1
+  have h3 := outRects_eq rects c0 (by simp [c0]; omega)
+  rw [hdc] at h3
+  have hout : [Out.begin] ++ (doConnection c0 []).2 ++
+      (outRects c0 rects ++ ((doConnection cE []).2 ++ o)) = paintUpdate rects ++ o := by
+    rw [List.append_assoc, ← List.append_assoc (doConnection c0 []).2, h3, hdcE]
+    simp [paintUpdate]
+  rw [hout] at h2
+  simpa [wireUpdateLast, List.append_assoc] using h2
+
+/-- the pixel format is untouched by an update (so the next update is decoded with the same pixel size) -/
+theorem C02_pf_kept (c : Core) (rects : List (Rct × Body)) : (coreAfterRects c rects).pf = c.pf := by
+  induction rects generalizing c with
+  | nil => rfl
+  | cons rb rects ih => simp only [coreAfterRects, ih, coreAfterRect_pf]
+
+/-- the property's probe: a Bell right after an update is understood as a Bell -/
+theorem C02_bell_after (c : Core) (rects : List (Rct × Body)) (hn : rects.length < 65536)
+    (hwf : ∀ rb ∈ rects, rb.1.WF ∧ rb.2.WF c.pf.bypp rb.1) :
+    (feed rfbMachine ⟨⟨c, .connection⟩, []⟩ (wireUpdate rects ++ [2])).2.1 = paintUpdate rects ++ [.bell] := by
+  apply runsOut_feed rfbMachine rfb_progress
+  refine ⟨⟨{ coreAfterRects { c with rectangles := rects.length, rectPos := [] } rects with rectangles := 0 },
+    .connection⟩, [], C02_update c rects hn hwf [2] [.bell] _ [] ?_⟩
+  refine runs_core [2] [] _ [.bell] [] rfl rfl rfl ?_ (by simp [okOut]) rfl (Runs.done ?_)
+  · simp [stepCore, go, Tables.S2C_FRAMEBUFFER_UPDATE, Tables.S2C_SET_COLOUR_MAP_ENTRIES, Tables.S2C_BELL]
+  · simp [Machine.blocked, rfbMachine, halted, need]
+
+/-- a DesktopSize pseudo-rectangle makes later whole-desktop requests use the new geometry -/
+theorem C02_desktop_geometry (c : Core) (r : Rct) :
+    (coreAfterRect c r .desktopSize).width = r.w ∧ (coreAfterRect c r .desktopSize).height = r.h :=
+  ⟨rfl, rfl⟩
+
+/-- non-vacuity: well-formed bodies exist for every rectangle (Raw for every image) -/
+theorem C02_raw_total (bypp : Nat) (r : Rct) (px : Bytes) (h : px.length = r.w * r.h * bypp) :
+    (Body.raw px).WF bypp r := h
+
 end Vnc
